@@ -180,7 +180,7 @@ static void run_data_trial(int idx)
 			uint64_t want = atomic_load(&t->merged_union);
 			snprintf(ctx, sizeof(ctx), "source:DATA_OR:merged-mask-must-be-delivered");
 			vf_watch_begin(ctx, 0);
-			while ((atomic_load(&t->delivered_union) & want) != want) sched_yield();
+			while ((atomic_load(&t->delivered_union) & want) != want) { struct timespec w = { 0, 100000 }; nanosleep(&w, NULL); }
 			/* let a running handler invocation finish before the round state is reset */
 			while (atomic_load(&t->in_handler)) sched_yield();
 			rounds_ok++;
@@ -197,7 +197,7 @@ static void run_data_trial(int idx)
 		for (;;) {
 			uint64_t d = atomic_load(&t->delivered_sum), m = atomic_load(&t->merged_sum);
 			if (d >= m && !atomic_load(&t->in_handler)) break;
-			sched_yield();
+			{ struct timespec w = { 0, 100000 }; nanosleep(&w, NULL); }
 		}
 		/* self-merges may still be in flight: wait until stable */
 		for (int k = 0; k < 200; k++) { struct timespec ts = { 0, 50000 }; nanosleep(&ts, NULL); if (atomic_load(&t->delivered_sum) == atomic_load(&t->merged_sum) && !atomic_load(&t->in_handler)) break; }
@@ -210,7 +210,7 @@ static void run_data_trial(int idx)
 		if (t->nmergers == 16) fin = ((uint64_t)16 << 32) | atomic_load(&t->issued[16]);
 		dispatch_source_merge_data(t->ds, fin);
 		vf_watch_begin("source:DATA_REPLACE:final-merge-must-be-delivered", 0);
-		while (atomic_load(&t->last_delivered) != fin) sched_yield();
+		while (atomic_load(&t->last_delivered) != fin) { struct timespec w = { 0, 100000 }; nanosleep(&w, NULL); }
 		vf_watch_end();
 		struct timespec ts = { 0, 300000 }; nanosleep(&ts, NULL);
 		if (atomic_load(&t->last_delivered) != fin) vf_violation("C15:replace:final-merge-not-last", "DATA_REPLACE source: a value was delivered after the final merge %#llx", (unsigned long long)fin);
@@ -218,7 +218,7 @@ static void run_data_trial(int idx)
 	vf_perturb_off();
 	dispatch_source_cancel(t->ds);
 	vf_watch_begin("source:data:cancel-handler", 0);
-	while (!atomic_load(&t->cancel_ran)) sched_yield();
+	while (!atomic_load(&t->cancel_ran)) { struct timespec w = { 0, 100000 }; nanosleep(&w, NULL); }
 	vf_watch_end();
 	uint64_t inv = atomic_load(&t->invocations), mg = atomic_load(&t->merges);
 	vf_count("data_merges", mg);
@@ -449,11 +449,11 @@ static void run_cancel_case(vf_rng_t *r, const char *desc, int forced_kind)
 		case P_FROM_HANDLER:
 			atomic_store(&c->want_self_cancel, 1);
 			if (c->kind == K_DATA) dispatch_source_merge_data(c->ds, 1);
-			while (!atomic_load(&c->cancel_ret)) sched_yield();
+			while (!atomic_load(&c->cancel_ret)) { struct timespec w = { 0, 50000 }; nanosleep(&w, NULL); }
 			break;
 		case P_FROM_TARGET_ITEM:
 			dispatch_async_f(c->tq, c, target_item_cancel);
-			while (!atomic_load(&c->cancel_ret)) sched_yield();
+			while (!atomic_load(&c->cancel_ret)) { struct timespec w = { 0, 50000 }; nanosleep(&w, NULL); }
 			break;
 		case P_SUSPENDED:
 			dispatch_suspend(c->ds);
@@ -503,7 +503,7 @@ static void run_cancel_case(vf_rng_t *r, const char *desc, int forced_kind)
 			if (has == 0) vf_count("epoll_unregistration_verified", 1);
 		}
 	} else {
-		while (!atomic_load(&c->cdone)) sched_yield();   /* the cancel handler must run (watchdog) */
+		while (!atomic_load(&c->cdone)) { struct timespec w = { 0, 50000 }; nanosleep(&w, NULL); }   /* the cancel handler must run (watchdog) */
 		vf_spin_ns(vf_rnd_range(r, 20000, 200000));
 	}
 	atomic_store(&c->stop_feeder, 1);
